@@ -7,14 +7,30 @@ from .common import Failure, f2h, h2f, parse_reply
 
 ID = "C05"
 BIN = "c05"
-PROOF_MODULES = ["Compute.Props.C05", "Compute.Lemmas.C05Loops", "Compute.Lemmas.C05Spec"]
+PROOF_MODULES = ["Compute.Props.C05", "Compute.Lemmas.C05Loops", "Compute.Lemmas.C05Spec", "Compute.Props.C05Review",
+                 "Compute.Props.C05Matrix"]
 REQUIRED_THEOREMS = [
-    "Cv.C05.transpose_get", "Cv.C05.matmul_spec", "Cv.C05.matmul_spec_TT", "Cv.C05.matmul_rejects",
-    "Cv.C05.matmulBlocked_rejects", "Cv.C05.matmulBlocked_eq_of_not_both", "Cv.C05.matmulBlocked_eq",
-    "Cv.C05.matmulBlocked_spec", "Cv.C05.xtx_spec", "Cv.C05.wiring_matMat", "Cv.C05.wiring_promotion",
-    "Cv.C05.dotMM_spec", "Cv.C05.dotMM_rejects", "Cv.C05.dotMV_eq", "Cv.C05.dotVM_eq", "Cv.C05.dotVV_eq",
-    "Cv.C05.dotMV_spec", "Cv.C05.dotVM_spec", "Cv.C05.dotVV_spec", "Cv.C05L.mmBlockedLoop_eq",
-    "Cv.C05.matmulBlocked_eq_float", "Cv.C05.legacyTT_violates_spec", "Cv.C05.matmul_rejects_malformed",
+    # headline: the definition (entry formulas on the stored operands, and with Mathlib's Matrix product)
+    "Cv.C05.matmul_spec", "Cv.C05.matmul_spec_NN", "Cv.C05.matmul_spec_TN", "Cv.C05.matmul_spec_NT", "Cv.C05.matmul_spec_TT",
+    "Cv.C05.matmul_matrix_NN", "Cv.C05.matmul_matrix_TN", "Cv.C05.matmul_matrix_NT", "Cv.C05.matmul_matrix_TT",
+    "Cv.C05.xtx_matrix", "Cv.C05.matmulBlocked_spec", "Cv.C05.xtx_spec", "Cv.C05.transpose_get",
+    # headline: blocked = plain
+    "Cv.C05L.mmBlockedLoop_eq", "Cv.C05.matmulBlocked_eq_of_not_both", "Cv.C05.matmulBlocked_eq",
+    # headline: exactly when a value is returned (review B1/B2)
+    "Cv.C05.matmul_isSome_iff", "Cv.C05.matmulBlocked_isSome_iff", "Cv.C05.matmul_zero_rows",
+    "Cv.C05.matmul_rejects", "Cv.C05.matmulBlocked_rejects", "Cv.C05.matmul_rejects_malformed",
+    "Cv.C05.dotMM_isSome_iff", "Cv.C05.dotMV_isSome_iff", "Cv.C05.dotVM_isSome_iff", "Cv.C05.dotMM_zero_rows",
+    "Cv.C05.dotMM_rejects", "Cv.C05.dotMV_rejects", "Cv.C05.dotVM_rejects",
+    # headline: the Dot trait
+    "Cv.C05.dotMM_spec", "Cv.C05.dotMV_spec", "Cv.C05.dotVM_spec", "Cv.C05.dotVV_spec",
+    "Cv.C05.wiring_matMat", "Cv.C05.wiring_promotion",
+    # rounding of the remaining Dot kinds (review B5; standard model)
+    "Cv.C05.dotMV_error", "Cv.C05.dotVM_error", "Cv.C05.dotVV_error",
+    # bridges for the whole-function source tie (review B3)
+    "Cv.C05.isMatrix_src", "Cv.C05.transpose_src", "Cv.C05.transpose_bridge", "Cv.C05.isMatrixU_bridge",
+    # supporting statements (unfoldings, instances, a definition local to the proof file) - required so that they cannot
+    # silently disappear, not headline results
+    "Cv.C05.dotMV_eq", "Cv.C05.dotVM_eq", "Cv.C05.dotVV_eq", "Cv.C05.matmulBlocked_eq_float", "Cv.C05.legacyTT_violates_spec",
 ]
 RULE = ("every shape m,l,n in 1..9 x 4 flag pairs with integer entries for matmul, with block sizes from 1..2*max(m,l,n) "
         "for matmul_blocked (quick: 2 per shape, thorough: all); non-conformable and malformed operands; random real "
@@ -27,17 +43,35 @@ RULE = ("every shape m,l,n in 1..9 x 4 flag pairs with integer entries for matmu
         "to 4097; block sizes at dimension +-1, 2^k, 2^20, 2^40. Aliasing sessions (`ses` lines, one state per line): the same "
         "slice / Matrix / Vector object as both operands of every entry point (sizes 1..9, 15..17, 33, random; non-symmetric, "
         "symmetric, real), overlapping views and two shapes of one buffer, operands mutated in place between identical calls, "
-        "slots re-filled right after a drop (address reuse). non-trivial = distinct (op, flags/method, ownership, shapes, block size)")
+        "slots re-filled right after a drop (address reuse). Zero dimensions: every entry point with a 0 somewhere in shapes "
+        "from 0..3 (decided by the oracle: non-conformable must panic; zero columns with positive row counts must give the "
+        "empty / all-zero product; a conformable product with a 0-row operand may only panic or return the correct value - the "
+        "panics are counted). non-trivial = distinct (op, flags/method, ownership, shapes, block size)")
 EXHAUSTIVE = {"quick": False, "thorough": True}
 NOT_PROVED = [
-    "floating-point rounding: the theorems are exact-arithmetic statements (commutative semiring); for f64 the oracle "
-    "checks |fl - exact| <= l*2^-52*sum|a_k b_k| on random real inputs and equality on integer-valued inputs",
+    "hand-modelled and tied at run time only (bit-exact correspondence over all four ownership forms), not regenerated from "
+    "the source text: xtx (a one-line delegation to matmul), Matrix::new / reshape_mut, Matrix::t_mut, Vector::to_matrix, and "
+    "the bodies of the Dot macros - their shape assert, matmul arguments and output shape are pulled out of dot.rs by regular "
+    "expressions into the wiring table (the translator refuses when a macro body changes shape); wiring_matMat and "
+    "wiring_promotion are `decide` over that extracted table (4 rows, two 4-entry maps, 16 instantiations), they are not "
+    "theorems about the Rust source text. matmul, matmul_blocked, is_matrix and transpose ARE regenerated from the source "
+    "and proved equal to the model (SrcTieC05Mut2 + the bridges isMatrix_src, transpose_src)",
     "that the four ownership forms of each Dot impl share one body is read off the macro by the translator (one model "
     "for the four forms) and checked by running all four forms against the model",
     "i32 casts of dimensions in Matrix::new (exact below 2^31)",
+    "bit-identity of matmul_blocked and matmul at Float is a theorem for the three flag pairs without the both-transposed "
+    "shortcut (no algebraic law used); for (true,true) the plain kernel multiplies b*a where the blocked one multiplies a*b, so "
+    "the identity needs commutativity of f64 multiplication: checked by the correspondence and by the oracle's bitwise "
+    "blocked-vs-plain comparison, not proved",
+    "operands with 0 rows: every entry point panics (is_matrix divides by the row count), also for mathematically conformable "
+    "products such as (2x0).(0x3) or Matrix(2x0).dot(empty Vector) - proved (matmul_zero_rows, dotMM_zero_rows, the isSome_iff "
+    "theorems) and observed; the quantifier of the property starts at dimension 1, so this is reported to the lead as finding "
+    "proposal key=zero-rows rather than counted as a violation",
 ]
 TRUSTED = ["element operations are IEEE + and * on f64 (compared bit for bit between model and implementation)"]
-ASSUMPTIONS = ["default cargo features (no `blas`): the #[cfg(not(feature = \"blas\"))] branch of matmul/dot is the code under test"]
+ASSUMPTIONS = ["default cargo features (no `blas`): the #[cfg(not(feature = \"blas\"))] branch of matmul/dot is the code under test",
+               "`returns a value` statements hold exactly under the conditions of the isSome_iff theorems: positive row counts "
+               "that divide the lengths and agreeing inner dimensions (for Matrix.Vector additionally a non-empty vector)"]
 
 METHS = ["dot", "t_dot", "dot_t", "t_dot_t"]
 LEAN_METH = {"dot": "dot", "t_dot": "tDot", "dot_t": "dotT", "t_dot_t": "tDotT"}
@@ -427,6 +461,7 @@ def gen(rng, tier):
             cover["dot_vv"] += 1
     strata(rng.fork("strata"), tier, lines, cover)
     alias_stratum(rng.fork("alias"), tier, lines, cover)
+    zero_dim_stratum(rng.fork("zero"), tier, lines, cover)
     return lines, cover
 
 
@@ -664,6 +699,72 @@ def strata(rng, tier, lines, cover):
 # The executor keeps buffers / Matrix / Vector objects in slots, so the SAME object can be both operands, two views of one
 # buffer can overlap, an operand can be mutated in place between two identical calls, and a slot can be re-filled right after
 # its previous contents were dropped (same size -> the allocator hands back the same address).  The model sees values only.
+def zero_dim_stratum(rng, tier, lines, cover):
+    """Every entry point with a zero somewhere in the shapes (zero rows: is_matrix divides by the row count and panics,
+    conformable or not; zero columns with positive row counts: empty / all-zero results), decided by the oracle."""
+    for k_ in ("zero_rows_conformable", "zero_cols_only", "zero_nonconformable"):
+        cover[k_] = 0
+    D = range(0, 4)
+    q = 0
+    for mi, meth in enumerate(METHS):
+        ta, tb = (meth in ("t_dot", "t_dot_t")), (meth in ("dot_t", "t_dot_t"))
+        for r1 in D:
+            for c1 in D:
+                for r2 in D:
+                    for c2 in D:
+                        if 0 not in (r1, c1, r2, c2):
+                            continue
+                        q += 1
+                        own = q % 4
+                        l, l2 = (r1 if ta else c1), (c2 if tb else r2)
+                        cover["zero_nonconformable" if l != l2 else ("zero_rows_conformable" if 0 in (r1, r2) else "zero_cols_only")] += 1
+                        a, b = ints(rng, r1 * c1), ints(rng, r2 * c2)
+                        lines.append(L_d("dmm", meth, own, (r1, c1, r2, c2), a, b))
+                        if r1 * c1 == 0 and r2 * c2 == 0 and q % 3 and tier == "quick":
+                            continue
+                        # the same operands through the slice kernels (a 0-row operand has an empty slice)
+                        lines.append(L_mm(int(ta), int(tb), r1, r2, a, b))
+                        lines.append(L_mb(int(ta), int(tb), r1, r2, 1 + q % 3, a, b))
+        for r in D:
+            for c in D:
+                for n in D:
+                    if 0 not in (r, c, n):
+                        continue
+                    q += 1
+                    lines.append(L_d("dmv", meth, q % 4, (r, c, n), ints(rng, r * c), ints(rng, n)))
+                    lines.append(L_d("dvm", meth, (q + 1) % 4, (n, r, c), ints(rng, n), ints(rng, r * c)))
+                    con = r if ta else c
+                    cover["zero_nonconformable" if con != n else ("zero_rows_conformable" if 0 in (r, n) else "zero_cols_only")] += 1
+                    con = c if tb else r
+                    cover["zero_nonconformable" if con != n else ("zero_rows_conformable" if r == 0 else "zero_cols_only")] += 1
+    for k in D:
+        for ln in (0, 3, 6):
+            if k and ln % k:
+                continue
+            x = ints(rng, ln)
+            if k == 0 or ln == 0:
+                lines.append(L_xtx(k, x))
+                lines.append(L_tr(k, x))
+                cover["zero_rows_conformable" if k == 0 else "zero_cols_only"] += 2
+    # zero-dimensional objects in sessions (same object on both sides)
+    for (r, c) in ((0, 0), (0, 3), (3, 0), (1, 0), (0, 1)):
+        S = Ses()
+        S.M(0, r, c, [])
+        S.V(1, [])
+        for meth in METHS:
+            S.add("dmm %s 1 0 0", meth)
+            S.add("dmv %s 3 0 1", meth)
+            S.add("dvm %s 1 1 0", meth)
+            S.add("dmd %s 1 0", meth)
+            S.add("ddm %s 3 0", meth)
+        S.add("dvv dot 1 1 1")
+        S.v(2, [])
+        S.add("mm 1 0 %d %d 2 0 0 2 0 0", max(r, 1), max(r, 1))
+        S.add("xtx %d 2 0 0", max(r, 1))
+        lines.append(S.line())
+        cover["zero_cols_only"] += 1
+
+
 class Ses:
     def __init__(self):
         self.c = []
@@ -1145,6 +1246,15 @@ def check_equivariance(i, key, base, hdr, a, b, toks, nskip, two=False):
     return None, True
 
 
+def zero_rows_outcome(i, key, st, vals, what):
+    if st == "panic":
+        STATS["zero_row_panics"] = STATS.get("zero_row_panics", 0) + 1
+        return None
+    if st == "ok" and all(h2f(x) == 0 for x in vals):
+        return None
+    return Failure(i, key, "%s: neither a panic nor an all-zero result (%s %s)" % (what, st, " ".join(vals[:6])))
+
+
 def parse_mm(t, blocked):
     ta, tb, ra, rb = int(t[1]), int(t[2]), int(t[3]), int(t[4])
     k = 5
@@ -1180,8 +1290,13 @@ def flat_oracle(lines, impl):
             key = "%s:%d%d:%dx?:%dx?" % (op, ta, tb, ra, rb)
             if op == "mm":
                 last_mm = None       # set below, once this reply has passed its own check
-            if ra == 0 or rb == 0 or (op == "mb" and bs == 0 and False):
-                continue  # zero-row operands are outside the property's quantifier (tie only)
+            if ra == 0 or rb == 0:
+                # a slice with 0 rows has no determinate column count (`len / 0`): is_matrix panics (theorem
+                # matmul_zero_rows).  Compatible with the definition: that panic, or a result made of zeros only.
+                f = zero_rows_outcome(i, key, st, toks[1:], "%s with a 0-row operand" % op)
+                if f is not None:
+                    fails.append(f)
+                continue
             if len(a) % ra or len(b) % rb:
                 if st != "panic":
                     fails.append(Failure(i, key, "operand is not a matrix with the given row count, yet a value was returned"))
@@ -1218,6 +1333,9 @@ def flat_oracle(lines, impl):
             k, x = int(t[1]), [h2f(v) for v in t[3:]]
             key = "xtx:%d:%d" % (k, len(x))
             if k == 0:
+                f = zero_rows_outcome(i, key, st, toks[1:], "xtx with 0 rows")
+                if f is not None:
+                    fails.append(f)
                 continue
             if len(x) % k:
                 if st != "panic":
@@ -1244,6 +1362,9 @@ def flat_oracle(lines, impl):
             r, x = int(t[1]), t[3:]
             key = "tr:%d:%d" % (r, len(x))
             if r == 0:
+                f = zero_rows_outcome(i, key, st, toks[1:], "transpose with 0 rows")
+                if f is not None:
+                    fails.append(f)
                 continue
             if len(x) % r:
                 if st != "panic":
@@ -1272,8 +1393,6 @@ def flat_oracle(lines, impl):
                 r1, c1, r2, c2, ta, tb = 1, n1, n2, 1, False, False
                 d = t[5:]
             key = "%s:%s:%d:%dx%d:%dx%d" % (op, meth, own, r1, c1, r2, c2)
-            if op != "dvv" and 0 in (r1, c1, r2, c2):
-                continue  # zero-dimensional operands: tie only
             d1 = [h2f(v) for v in d[:r1 * c1]]
             d2 = [h2f(v) for v in d[r1 * c1:]]
             m, l = (c1, r1) if ta else (r1, c1)
@@ -1281,6 +1400,13 @@ def flat_oracle(lines, impl):
             if l != l2:
                 if st != "panic":
                     fails.append(Failure(i, key, "%s.%s with non-conformable shapes returned a value instead of a panic" % (op, meth)))
+                continue
+            if op != "dvv" and (r1 == 0 or r2 == 0) and st == "panic":
+                # conformable, but an operand (after promotion: Matrix.Vector promotes to len x 1) has 0 rows: is_matrix
+                # divides by the row count (theorems dotMM_zero_rows, dotMV_isSome_iff, dotVM_isSome_iff).  The panic is
+                # recorded (finding proposal `zero-rows`, outside the quantifier `shapes 1..`); a value, if one is ever
+                # returned, is judged by the definition below like any other.
+                STATS["zero_row_panics"] = STATS.get("zero_row_panics", 0) + 1
                 continue
             if st != "ok":
                 fails.append(Failure(i, key, "%s.%s with conformable shapes: %s" % (op, meth, st)))
